@@ -18,9 +18,13 @@
       - instances: [ite], [var], [quantify] (names), [cofactor] (names), and
         [apply] for every propositional symbol of the vocabulary;
       - the property is FALSE of the model (and of the implementation) for
-        the entry points that are not decorated: [find_or_add], [image],
-        [preimage] let [_NeedsReordering] escape
-        ([C09_find_or_add_refuted], [C09_image_refuted]); and for
+        the entry point [find_or_add], which is not decorated and lets
+        [_NeedsReordering] escape ([C09_find_or_add_refuted]); the
+        recursion of [image]/[preimage] does the same when entered without
+        protection, which is why the public [image], [preimage] and
+        [copy_bdd] run with requests disabled since dd commit 127a6e6
+        ([C09_image_guard_needed]; the totality of the guarded entry points:
+        [Properties/C17c.v]); and for
         [quantify] when the variables are given as LEVELS, which the second
         attempt reads against the new order ([C09_quantify_levels_refuted]);
       - open: [compose], [rename], [cube] (decorated; they fit [op_spec] but
@@ -322,14 +326,17 @@ Example C09_find_or_add_refuted :
   snd (step w 0 (OFindOrAdd 0 (-1) 2)) = Err ENeedsReordering.
 Proof. exact find_or_add_signal_escapes. Qed.
 
-Example C09_image_refuted :
+Example C09_image_guard_needed :
   let w := run_ops [ONew [(0, 0); (1, 1)]; OVar 0; OIncref 2; OVar 1; OIncref 3;
                     OConfigure (Some true); OSetLastLen (Some 1)] in
   let s := world_get w 0 in
   rctx s = false ∧ last_len s = Some 1 ∧ mem 2 s = true ∧ mem 3 s = true ∧
   fst (image 2 3 true [] true [] false s) = Err ENeedsReordering ∧
-  snd (step w 0 (OImage 2 3 true [] true [] false)) = Err ENeedsReordering ∧
-  snd (step w 0 (OPreimage 2 3 true [] true [] false)) = Err ENeedsReordering.
+  (* the public entry points run with requests disabled (repaired in dd): they
+     succeed and restore the threshold *)
+  match snd (step w 0 (OImage 2 3 true [] true [] false)) with Ok _ => true | Err _ => false end = true ∧
+  match snd (step w 0 (OPreimage 2 3 true [] true [] false)) with Ok _ => true | Err _ => false end = true ∧
+  last_len (world_get (fst (step w 0 (OImage 2 3 true [] true [] false))) 0) = Some 1.
 Proof. exact image_signal_escapes. Qed.
 
 (** ** A positive run, and a refutation for keys given as levels.
